@@ -86,7 +86,7 @@ pub fn run(ctx: &Ctx, rep: &mut Report) {
             let o = w.do_deploy(&dep, &salt, &name, &symbol, dec, *rng.pick(&[0i128, 500]), None, Auth::Only(vec![dep.clone()]));
             match o.res {
                 Ok(id) => {
-                    let addr = w.predicted_token_address(&id);
+                    let addr = w.token_addr(&id);
                     w.model.tokens.insert(id, TokenRec { id, addr: addr.clone(), mode: TokMode::Native, name, symbol, decimals: dec, its_can_mint: true, minter: None });
                     locals.push((dep, salt, id, addr));
                 }
